@@ -55,6 +55,7 @@ RULE = ("one evaluation = one simulated file-system world with one logical "
         "instant (paths), or at least one fault fired (faults); distinct = "
         "distinct SHA-1 of the full event history")
 EXPECTED_PROBES = ["load.sibling", "load.pickle_after_file_changed",
+                   "load.gettz_env",
                    "load.gettz_name", "load.gettz_second", "load.gettz_space",
                    "load.gettz_colon", "load.gettz_abs", "load.tzfile_path",
                    "load.tzfile_stream", "load.archive", "load.archive_link",
@@ -272,7 +273,8 @@ def gen_zone(rng):
 LOADS = ["gettz_name", "gettz_second", "gettz_space", "gettz_colon",
          "gettz_abs", "tzfile_path", "tzfile_stream", "tzfile_stream_noname",
          "tzfile_stream_chunked", "archive", "archive_link", "archive_hardlink",
-         "bundle", "gettz_bundle", "sibling", "sibling"]
+         "bundle", "gettz_bundle", "sibling", "sibling", "gettz_env",
+         "gettz_env_colon"]
 
 
 def gen_loads(rng, n):
@@ -550,6 +552,14 @@ class Loader(object):
             return tz.gettz(":Area/Zone")
         if k == "gettz_abs":
             return tz.gettz(self.p1)
+        if k in ("gettz_env", "gettz_env_colon"):
+            # gettz() without a name follows the TZ environment variable
+            self.world.set_tz(":Area/Zone" if k.endswith("colon")
+                              else "Area/Zone")
+            try:
+                return tz.gettz()
+            finally:
+                self.world.set_tz(None)
         if k == "tzfile_path":
             return tz.tzfile(self.p1)
         if k == "tzfile_stream":
@@ -610,6 +620,7 @@ class _Raw(io.RawIOBase):
 
 # load ops whose zone was read from a path of the simulated file system
 PATH_OF = {"gettz_name": "p1", "gettz_colon": "p1", "gettz_abs": "p1",
+           "gettz_env": "p1", "gettz_env_colon": "p1",
            "tzfile_path": "p1", "gettz_second": "p2", "gettz_space": "psp"}
 
 ALLOWED_LOAD_ERRORS = (OSError, ValueError, struct.error, IndexError,
@@ -711,6 +722,7 @@ def execute(cls, scenario, ctx):
                             "tzfile_stream_noname": "tzfile_stream",
                             "tzfile_stream_chunked": "tzfile_stream",
                             "archive_hardlink": "archive_link",
+                            "gettz_env_colon": "gettz_env",
                             "gettz_bundle": "bundle"}.get(op[0], op[0]))
             except (Deadlock, BudgetExceeded):
                 raise
@@ -960,7 +972,8 @@ def judge_fault_result(ctx, op, z, ref, instants, label, armed, data):
             ctx.probe("fault_survived_correct_zone")
             return
         fallback_ok = op[0] in ("gettz_name", "gettz_colon", "gettz_second",
-                                "gettz_space")
+                                "gettz_space", "gettz_env",
+                                "gettz_env_colon")
         if fallback_ok:
             # the first candidate was faulted: the same name in the second
             # TZPATHS entry (a different, well-formed zone) or a later stage
